@@ -300,7 +300,7 @@ func (env *ExecEnv) expandParam(fields []*field, pe *ast.ParamExp, mode ExpMode)
 			fields[len(fields)-1].join(pe.Name.Value, quote)
 		case set && !null:
 			goto Param
-		case !set && env.Opts&NoUnset != 0 && !env.isSpParam(pe.Name.Value):
+		case !set && env.Opts&NoUnset != 0:
 			goto Unset
 		case quote && pe.Name.Value == "@" && len(env.Args) == 1:
 			// "$@" generates zero fields
